@@ -223,6 +223,46 @@ CHECKS["C15"] = dict(
     ],
 )
 
+FILTER_NOTE = "Pattern classes: literals, 'x/**', '**/y' and their negations (the classes in which the walk's directory-pruning shortcuts are enabled, matched by the real patternmatcher code without regexp); '*', '?', character classes and escapes go through regexp and are outside the claim. Names are single symbolic bytes (any value but '/', NUL and '.'), so names equal to, different from, and ordered around the pattern literals arise from the solver. "
+
+CHECKS["C10"] = dict(
+    level_text="The real NewFilterFS/filterFS.Walk with the real patternmatcher is executed on a tree with symbolic names for every include/exclude list inside the bounds and compared with two references written in the harness: the statement's naive evaluation and the same evaluation with parent results threaded down. Outside the class where the two references differ the walk must equal the naive reference; inside it the only tolerated deviation is the dependency's incremental semantics (a known finding); any pruning or parent-emission error differs from both and is a violation.",
+    level_note="Bounds: tree X/{P, Q/{R}}, Y; lists of up to 2 include and 1 exclude (or 1 and 2) patterns from 14 templates in the quick tier, 2 and 2 in the thorough tier. " + FILTER_NOTE + "The map function and follow-paths are outside (C18). " + BASE_TRUST,
+    assumptions=["the underlying view is a harness FS that implements SkipDir the way filepath.WalkDir does"],
+    obligations=[
+        ob("VH_C10_filter", dict(NI=2, NE=0), covers=["incremental-class", "agreeing-class"], bounds="<=2 include patterns"),
+        ob("VH_C10_filter", dict(NI=0, NE=2), covers=["incremental-class", "agreeing-class"], bounds="<=2 exclude patterns"),
+        ob("VH_C10_filter", dict(NI=1, NE=1), covers=["agreeing-class"], bounds="<=1 include and <=1 exclude pattern"),
+        ob("VH_C10_filter", dict(NI=2, NE=1), T, covers=["incremental-class", "agreeing-class"], bounds="<=2 include, <=1 exclude", max_paths=600000),
+        ob("VH_C10_filter", dict(NI=1, NE=2), T, covers=["incremental-class", "agreeing-class"], bounds="<=1 include, <=2 exclude", max_paths=600000),
+    ],
+)
+
+CHECKS["C11"] = dict(
+    level_text="Two obligations decided over all inputs in the bounds: (1) walk/open agreement: for the tree and pattern classes of C10, every regular file the real filtered Walk reports is opened by the real filterFS.Open with its bytes and every hidden file is refused; (2) hard-link reset: for every link-group layout of a five-entry view and every subset hidden by an inner filter, the real WithHardlinkReset view is accepted by fresh order and hard-link validators, the first visible member of a group is a plain regular entry and later visible members link to it.",
+    level_note="Bounds: (1) as C10, lists of up to 2+0, 0+2 and 1+1 patterns (quick), 2+1 (thorough); (2) view {a, b, d/, d/e, f} with every assignment of the four files to link groups and every hidden subset. The end-to-end transfer of a filtered view is covered by C01/C06/C07 separately, not jointly. " + FILTER_NOTE + BASE_TRUST,
+    assumptions=["the unfiltered view is well formed: links name the first member of their group in walk order"],
+    obligations=[
+        ob("VH_C11_open", dict(NI=2, NE=0), covers=["reported", "hidden"], bounds="<=2 include patterns"),
+        ob("VH_C11_open", dict(NI=0, NE=2), covers=["reported", "hidden"], bounds="<=2 exclude patterns"),
+        ob("VH_C11_open", dict(NI=1, NE=1), covers=["reported", "hidden"], bounds="<=1 include and <=1 exclude pattern"),
+        ob("VH_C11_hardlinks", {}, covers=["link", "hidden", "done"], bounds="5-entry view, all group layouts, all hidden subsets"),
+        ob("VH_C11_open", dict(NI=2, NE=1), T, covers=["reported", "hidden"], bounds="<=2 include, <=1 exclude", max_paths=600000),
+    ],
+)
+
+CHECKS["C16"] = dict(
+    level_text="The real copy.Copy with include/exclude patterns is executed on the model file system: for every tree and pattern lists inside the bounds the set of paths created in the destination equals the set the real filtered Walk reports for the same tree (asserted unconditionally), equals the statement's naive reference selection outside the known incremental-matcher class, contains no directory without a selected descendant, and ancestors created on demand carry the source directory's mode and owner.",
+    level_note="Bounds: tree X/{P, Q/{R}}, Y with names drawn from {a, b, c} (siblings ascending), lists of up to 1+1 (quick) and 2+0 / 0+2 (quick) patterns from 12 templates, optionally a populated destination (thorough). " + FILTER_NOTE + FS_TRUST + BASE_TRUST,
+    assumptions=["names are concrete (model-FS keys), chosen by the solver from a three-letter alphabet"],
+    obligations=[
+        ob("VH_C16_select", dict(NI=1, NE=1), pkg=COPY, covers=["agreeing-class", "on-demand-ancestor"], bounds="<=1 include and <=1 exclude pattern"),
+        ob("VH_C16_select", dict(NI=2, NE=0), pkg=COPY, covers=["agreeing-class", "incremental-class"], bounds="<=2 include patterns"),
+        ob("VH_C16_select", dict(NI=0, NE=2), T, pkg=COPY, covers=["agreeing-class", "incremental-class"], bounds="<=2 exclude patterns"),
+        ob("VH_C16_select", dict(NI=1, NE=1, POP=1), T, pkg=COPY, covers=["agreeing-class", "populated-destination"], bounds="populated destination"),
+    ],
+)
+
 NOT_APPLICABLE = {
     "C08": "quantifies over schedules and includes data-race freedom and non-overlap of stream calls; the hand-written SSA executor runs goroutines under one cooperative schedule and cannot enumerate interleavings or observe races, and no Go engine that can is installed (DESIGN.md §7)",
 }
